@@ -291,7 +291,7 @@ def j6_just_filled(ctx):
             first = min(fills + reads)
             empty = any((e[0] == "switch" and e[2][0] == "call" and name_is(e[2][2], "is_empty", "is_none") and e[3] != 0) or
                         (e[0] == "switch" and e[2][0] == "discr" and is_self_field(strip_wrappers(e[2][1]), field) and e[3] == 0) or
-                        (e[0] == "switch" and e[2][0] == "discr" and call_is(e[2][1], "front", "as_ref", "front_mut") and e[3] == 0) for e in p[:first])
+                        (e[0] == "switch" and e[2][0] == "discr" and call_is(strip_wrappers(e[2][1]), "front", "as_ref", "front_mut") and e[3] == 0) for e in p[:first])
             ctx.ob("J6", "peek:refill-only-when-empty", empty, "the reader is asked for the next event only on paths where `%s` was found empty (otherwise a peeked event would be overwritten or overtaken)" % field, config=cfg)
         for p in ctx.paths(b):
             pan = [i for i, e in enumerate(p) if e[0] == "call" and panics.is_panicking(e[2])]
@@ -301,7 +301,9 @@ def j6_just_filled(ctx):
             filled = any(e[0] == "call" and name_is(e[2], "push_front") and ends_with_fields(e[3][0], field) for e in p[:pan[0]]) or \
                 any(e[0] == "store" and is_self_field(e[2], field) and e[3][0] == "agg" and e[3][2] == "Some" for e in p[:pan[0]])
             nonempty = any(e[0] == "switch" and e[2][0] == "call" and name_is(e[2][2], "is_empty", "is_none") and e[3] == 0 for e in p[:pan[0]]) or \
-                any(e[0] == "switch" and e[2][0] == "discr" and is_self_field(strip_wrappers(e[2][1]), field) and e[3] == 1 for e in p[:pan[0]])
+                any(e[0] == "switch" and e[2][0] == "discr" and is_self_field(strip_wrappers(e[2][1]), field) and e[3] == 1 for e in p[:pan[0]]) or \
+                any(e[0] == "switch" and e[2][0] == "discr" and call_is(strip_wrappers(e[2][1]), "front", "as_ref", "front_mut") and has_subterm(e[2][1], lambda s2: s2[0] == "pl" and ends_with_fields(s2, field)) and e[3] == 1
+                    and not any(x[0] == "call" and name_is(x[2], "pop_front", "take", "clear") for x in p[p.index(e):pan[0]]) for e in p[:pan[0]])   # `front().is_none()` was false and nothing was taken since
             ok_paths += 1
             ctx.ob("J6", "peek:just-filled", filled or nonempty, "the unreachable!() after `front()`/`as_ref()` lies on paths where `%s` was filled by push_front/Some(..) or tested non-empty just before" % field, config=cfg)
         ctx.ob("J6", "peek:site", ok_paths >= 1, "panic site of peek() found on %d path(s)" % ok_paths, config=cfg)
